@@ -46,7 +46,7 @@ fi
 [ "$TIER" = "thorough" ] || exit 0
 
 # (2) coverage-guided campaign (libFuzzer via cargo-fuzz, nightly), fixed work
-RUNS="${VERIF_FUZZ_RUNS:-300000}"; PROCS="${VERIF_FUZZ_PROCS:-6}"
+RUNS="${VERIF_FUZZ_RUNS:-1000000}"; PROCS="${VERIF_FUZZ_PROCS:-8}"
 if ! cargo +nightly fuzz build --fuzz-dir "$HERE/fuzz" "$TARGET" >/tmp/vfuzz-build.$$ 2>&1; then
   echo "INCONCLUSIVE property=$ID fuzz target $TARGET does not build (cargo +nightly fuzz); last lines:"; tail -n 15 /tmp/vfuzz-build.$$; rm -f /tmp/vfuzz-build.$$
   exit 2
